@@ -618,6 +618,20 @@ func zeroTerm(t types.Type) *Term {
 		}
 	case *types.Pointer, *types.Slice, *types.Map, *types.Chan, *types.Signature, *types.Interface:
 		return nilTerm
+	case *types.Struct:
+		if u.NumFields() > 0 && u.NumFields() <= 8 {
+			z := fresh("lit")
+			for i := 0; i < u.NumFields(); i++ {
+				ft := u.Field(i).Type()
+				if _, nested := ft.Underlying().(*types.Struct); nested {
+					z.Args = append(z.Args, fresh("z"))
+				} else {
+					z.Args = append(z.Args, zeroTerm(ft))
+				}
+				z.Fields = append(z.Fields, u.Field(i).Name())
+			}
+			return z
+		}
 	}
 	return fresh("z")
 }
@@ -747,8 +761,74 @@ func (w *Walker) evalTuple(e ast.Expr, st *State, n int) []tupleRes {
 	return []tupleRes{{st, ts}}
 }
 
+// localFieldVar: x.f where x is a local variable of struct type (not a pointer, not the receiver or a parameter holding
+// shared state) is a variable of its own; the synthetic variable standing for it is returned (nil otherwise).
+func (w *Walker) localFieldVar(e ast.Expr) *types.Var {
+	sel, ok := ast.Unparen(e).(*ast.SelectorExpr)
+	if !ok {
+		return nil
+	}
+	id, ok := ast.Unparen(sel.X).(*ast.Ident)
+	if !ok {
+		return nil
+	}
+	base, ok := w.info.Uses[id].(*types.Var)
+	if !ok || base.IsField() || base == w.Fn.RecvVar || base.Parent() == nil || base.Pkg() == nil || base.Parent() == base.Pkg().Scope() {
+		return nil
+	}
+	for _, p := range w.Fn.Params {
+		if p == base {
+			return nil
+		}
+	}
+	if _, isStruct := base.Type().Underlying().(*types.Struct); !isStruct {
+		return nil
+	}
+	s := w.info.Selections[sel]
+	if s == nil || s.Kind() != types.FieldVal || len(s.Index()) != 1 {
+		return nil
+	}
+	fv := s.Obj().(*types.Var)
+	if w.A.fieldVars == nil {
+		w.A.fieldVars = map[[2]*types.Var]*types.Var{}
+		w.A.fieldVarsOf = map[*types.Var][]*types.Var{}
+		w.A.fieldVarField = map[*types.Var]*types.Var{}
+	}
+	k := [2]*types.Var{base, fv.Origin()}
+	if v, ok := w.A.fieldVars[k]; ok {
+		return v
+	}
+	v := types.NewVar(sel.Pos(), base.Pkg(), base.Name()+"."+fv.Name(), fv.Type())
+	w.A.fieldVars[k] = v
+	w.A.fieldVarsOf[base] = append(w.A.fieldVarsOf[base], v)
+	w.A.fieldVarField[v] = fv.Origin()
+	return v
+}
+
 func (w *Walker) storeOrBind(lh ast.Expr, t *Term, st *State, at ast.Node, define bool) {
 	lh = ast.Unparen(lh)
+	if fv := w.localFieldVar(lh); fv != nil {
+		if len(w.cnt) > 0 {
+			kind := "other"
+			switch x := at.(type) {
+			case *ast.IncDecStmt:
+				if x.Tok == token.INC {
+					kind = "inc"
+				}
+			case *ast.AssignStmt:
+				if x.Tok == token.ADD_ASSIGN && len(x.Rhs) == 1 {
+					if tv, ok := w.info.Types[x.Rhs[0]]; ok && tv.Value != nil && tv.Value.ExactString() == "1" {
+						kind = "inc"
+					}
+				} else if x.Tok == token.ASSIGN && t != nil && t.K == KConst && t.S == "true" {
+					kind = "settrue"
+				}
+			}
+			w.noteCounter(fv, kind, st)
+		}
+		st.Env[fv] = t
+		return
+	}
 	if id, ok := lh.(*ast.Ident); ok {
 		if id.Name == "_" {
 			return
@@ -791,6 +871,10 @@ func (w *Walker) storeOrBind(lh ast.Expr, t *Term, st *State, at ast.Node, defin
 // store handles a write through a non-local lvalue.
 func (w *Walker) store(lh ast.Expr, val *Term, st *State, at ast.Node) {
 	lh = ast.Unparen(lh)
+	if w.localFieldVar(lh) != nil {
+		w.storeOrBind(lh, val, st, at, false)
+		return
+	}
 	switch x := lh.(type) {
 	case *ast.Ident:
 		w.storeOrBind(lh, val, st, at, false)
@@ -1625,10 +1709,28 @@ func (w *Walker) eval(e ast.Expr, st *State) []evalRes {
 			cur = next
 		}
 		var out []evalRes
+		// a struct literal with named fields evaluated on a single path keeps its field values (a result struct read
+		// back by the caller)
+		var names []string
+		if _, isStruct := w.info.TypeOf(x).Underlying().(*types.Struct); isStruct && len(cur) == 1 && len(elts) == len(x.Elts) {
+			for _, el := range x.Elts {
+				if kv, ok := el.(*ast.KeyValueExpr); ok {
+					if id, ok := kv.Key.(*ast.Ident); ok {
+						names = append(names, id.Name)
+						continue
+					}
+				}
+				names = nil
+				break
+			}
+		}
 		for _, s := range cur {
 			t := fresh("lit")
 			t.NonNil = true
 			t.Args = elts
+			if len(names) == len(elts) {
+				t.Fields = names
+			}
 			out = append(out, evalRes{s, t})
 		}
 		return out
@@ -1671,6 +1773,50 @@ func (w *Walker) identTerm(id *ast.Ident, st *State) *Term {
 	case *types.Const:
 		return constObjTerm(o)
 	case *types.Var:
+		anyField := false
+		for _, fv := range w.A.fieldVarsOf[o] {
+			if _, ok := st.Env[fv]; ok {
+				anyField = true
+			}
+		}
+		if fvs := w.A.fieldVarsOf[o]; anyField {
+			// a local struct whose fields were assigned one by one: its value is the struct of those fields
+			if stt, ok := o.Type().Underlying().(*types.Struct); ok {
+				t := fresh("lit")
+				t.NonNil = true
+				for i := 0; i < stt.NumFields(); i++ {
+					f := stt.Field(i)
+					var val *Term
+					for _, fv := range fvs {
+						if w.A.fieldVarField[fv] == f.Origin() {
+							if v, ok := st.Env[fv]; ok {
+								val = v
+							}
+						}
+					}
+					if val == nil {
+						if base, ok := st.Env[o]; ok && len(base.Fields) == len(base.Args) && len(base.Fields) > 0 {
+							for j, fnm := range base.Fields {
+								if fnm == f.Name() {
+									val = base.Args[j]
+								}
+							}
+						}
+					}
+					if val == nil {
+						// a field never assigned separately: the field of whatever the variable holds
+						if base, ok := st.Env[o]; ok {
+							val = mkTerm(KSel, f.Name(), base)
+						} else {
+							val = fresh("fld_" + f.Name() + "_")
+						}
+					}
+					t.Args = append(t.Args, val)
+					t.Fields = append(t.Fields, f.Name())
+				}
+				return t
+			}
+		}
 		if t, ok := st.Env[o]; ok {
 			return t
 		}
@@ -1741,6 +1887,11 @@ func (w *Walker) selector(x *ast.SelectorExpr, st *State) []evalRes {
 	if sel == nil {
 		return []evalRes{{st, fresh("sel")}}
 	}
+	if fv := w.localFieldVar(x); fv != nil {
+		if t, ok := st.Env[fv]; ok {
+			return []evalRes{{st, t}}
+		}
+	}
 	var out []evalRes
 	for _, b := range w.eval(x.X, st) {
 		if sel.Kind() != types.FieldVal {
@@ -1750,6 +1901,19 @@ func (w *Walker) selector(x *ast.SelectorExpr, st *State) []evalRes {
 			continue
 		}
 		fv := sel.Obj().(*types.Var).Origin()
+		if len(b.t.Fields) > 0 && len(b.t.Fields) == len(b.t.Args) {
+			found := false
+			for i, fnm := range b.t.Fields {
+				if fnm == x.Sel.Name {
+					out = append(out, evalRes{b.st, b.t.Args[i]})
+					found = true
+				}
+			}
+			if !found {
+				out = append(out, evalRes{b.st, zeroTerm(fv.Type())})
+			}
+			continue
+		}
 		if e, ok := w.A.entryOf[b.t.S]; ok && w.A.entryOf != nil {
 			out = append(out, w.entryField(e, x.Sel.Name, fv.Type(), b.st)...)
 			continue
